@@ -18,16 +18,18 @@ A == MkCrs(R, C, mask, 0, FALSE)                                 \* sorted rows 
 Ac == LET P == MkCrs(R, C, mask, 0, FALSE) IN [P EXCEPT !.val = [p \in 1..NNZ(P) |-> <<P.val[p], PatVal(p, P.col[p], 1)>>]]
 
 Init == mask \in {m \in Masks(R, C) : m % STEP = 0} /\ pc = "in" /\ out = <<>>
-Block   == KIND = "block"   /\ pc = "in" /\ pc' = "block"   /\ out' = Materialize(BlockView(A, B)) /\ UNCHANGED mask
-Unblock == KIND = "block"   /\ pc = "block" /\ pc' = "unblock" /\ out' = UnblockRun(out, B) /\ UNCHANGED mask
+\* one step: the block matrix produced by the adapter and the scalar matrix unblock_matrix makes of it
+Block   == KIND = "block"   /\ pc = "in" /\ pc' = "block"
+           /\ LET Bm == Materialize(BlockView(A, B)) IN out' = [blk |-> Bm, unb |-> UnblockRun(Bm, B)]
+           /\ UNCHANGED mask
 Complex == KIND = "complex" /\ pc = "in" /\ pc' = "complex" /\ out' = Materialize(ComplexView(Ac)) /\ UNCHANGED mask
-NextBlock   == Block \/ Unblock           \* FormulationsModel.cfg
+NextBlock   == Block                      \* FormulationsModel.cfg
 NextComplex == Complex                    \* FormulationsComplex.cfg
 
 \* block entries in place (i mod b, j mod b), structurally incomplete blocks zero-filled, no block twice
-BlockInv   == pc = "block" => /\ BlockOK(A, B, out)
-                              /\ \A i \in 0..(out.n - 1) : \A p \in RowPos(out, i) : (p + 1) \in RowPos(out, i) => out.col[p] < out.col[p + 1]
-UnblockInv == pc = "unblock" => WellFormed(out) /\ SameOperator(out, A) /\ out.n = R /\ out.m = C
+BlockInv   == pc = "block" => /\ BlockOK(A, B, out.blk)
+                              /\ \A i \in 0..(out.blk.n - 1) : \A p \in RowPos(out.blk, i) : (p + 1) \in RowPos(out.blk, i) => out.blk.col[p] < out.blk.col[p + 1]
+UnblockInv == pc = "block" => WellFormed(out.unb) /\ SameOperator(out.unb, A) /\ out.unb.n = R /\ out.unb.m = C
 \* complex-equivalent matrix = definition, and it acts on interleaved vectors like the complex matrix acts on complex ones
 Z  == [j \in 1..C |-> <<j - 2, 3 - j * j>>]
 CMulG(u, v) == <<u[1] * v[1] - u[2] * v[2], u[1] * v[2] + u[2] * v[1]>>
